@@ -1,5 +1,6 @@
 import Deb822Verif.Driver.Proto
 import Deb822Verif.Model.RelWrap
+import Deb822Verif.Model.RelEq
 import Deb822Verif.Props.C13Pairs
 /-! C13 driver: `rel.wrap <field text> <allow_substvar>` (see harness/src/reledit.rs). -/
 namespace Deb822Verif.Driver.RelWrap
@@ -40,6 +41,26 @@ def handle (op : String) (args : List String) : Option String :=
             | .ok w3 => encStr w3.text
             | .panic _ => "PANIC-OR-UNPARSABLE"
         pure s!"{encStr t1} {dump w1} | {t2} | {t3}"
+  -- `rel.eqcmp <a> <b>`: `==` and `cmp` of two strictly read fields, at relation / entry / field
+  -- level (Model/RelEq.lean; harness/src/reledit.rs)
+  | "rel.eqcmp", [ta, tb] => do
+    let sa ← decStr ta
+    let sb ← decStr tb
+    match readStrict sa, readStrict sb with
+    | .ok a, .ok b =>
+      let sb := fun (o : Option Bool) => match o with | some true => "1" | some false => "0" | none => "P"
+      let so := fun (o : Option Ordering) => match o with
+        | some .lt => "lt" | some .eq => "eq" | some .gt => "gt" | none => "P"
+      let f := sb (Rel.Eq.relationsNodeEqO a b)
+      let (r, e) := match entries a, entries b with
+        | [ea], [eb] =>
+          let e := s!"e={sb (Rel.Eq.entryNodeEqO ea eb)} ecmp={so (Rel.Eq.entryNodeCmpO (relations ea) (relations eb))}"
+          match relations ea, relations eb with
+          | [ra], [rb] => (s!"eq={sb (Rel.Eq.relNodeEqO ra rb)} cmp={so (Rel.Eq.relNodeCmpO ra rb)}", e)
+          | _, _ => ("eq=- cmp=-", e)
+        | _, _ => ("eq=- cmp=-", "e=- ecmp=-")
+      pure s!"{r} {e} f={f}"
+    | _, _ => pure "err"
   | _, _ => none
 
 end Deb822Verif.Driver.RelWrap
